@@ -1,6 +1,7 @@
 """C19 — retrieve: each sub-operation exactly once, true progress (C-GET user, C-MOVE provider)."""
 import contextlib
 import itertools
+import io
 import types
 
 from . import common, svc, msgs
@@ -55,6 +56,10 @@ def run_move(case):
         if sub_calls:
             return 'sub-operations performed although the destination is unknown', None
         return None, None
+    bad_ids = [c[1] for c in sub_calls if not (isinstance(c[1], int) and 0 <= c[1] <= 65535)]
+    if bad_ids:
+        return ('C-MOVE request with message id %d, %d sub-operations: a C-STORE sub-operation was given message id %r, which '
+                'does not fit the 16-bit field' % (case['msgid'], n, bad_ids[0])), None
     if [c[0] for c in sub_calls] != ['1.2.9.%d' % k for k in range(n)]:
         return 'sub-operations %r, the application supplied instances 0..%d in order' % ([c[0] for c in sub_calls], n - 1), None
     wrong = [(c[0], c[2]) for c, d in zip(sub_calls, dss) if c[2] != str(d.SOPClassUID)]
@@ -101,6 +106,10 @@ def run_move_default(case):
     return None
 
 
+class _FileLike(io.BytesIO):
+    """what the DIMSE layer hands over for a file-backed class: a file object (here it also remembers which instance)"""
+
+
 def run_get(case):
     import pydicom
     from pynetdicom2 import sopclass as sc, dimsemessages as dm, dsutils, statuses, exceptions
@@ -114,14 +123,23 @@ def run_get(case):
         if o == 'err':
             raise exceptions.EventHandlingError('no')
         return statuses.Status(o, dm.CStoreRSPMessage)
-    ae = types.SimpleNamespace(on_receive_store=on_receive_store, store_in_file=set(),
-                               context_def_list={c: svc.ctx(c, IMG) for c in store_ctxs})
+    # the requesting entity keeps one storage class in files and the others in memory: contexts 7 and 255 carry the
+    # file-backed class (the DIMSE layer then hands over a file object), the rest the in-memory one
+    OTHER = '1.2.840.10008.5.1.4.1.1.88.33'
+    in_file_ctx = lambda c: c in (7, 255)
+    ae = types.SimpleNamespace(on_receive_store=on_receive_store, store_in_file={OTHER},
+                               context_def_list={c: svc.ctx(c, OTHER if in_file_ctx(c) else IMG) for c in store_ctxs})
     incoming = []
     for k, x in enumerate(script):
         if x[0] == 'S':
             d = pydicom.Dataset(); d.PatientID = 'G%d' % k; d.SOPInstanceUID = '1.2.7.%d' % k
-            m, pc = svc.received(dm.CStoreRQMessage, x[1], message_id=x[2], sop_class_uid=IMG, affected_sop_instance_uid='1.2.7.%d' % k,
+            m, pc = svc.received(dm.CStoreRQMessage, x[1], message_id=x[2], sop_class_uid=OTHER if in_file_ctx(x[1]) else IMG,
+                                 affected_sop_instance_uid='1.2.7.%d' % k,
                                  priority=0, move_originator_aet='X', move_originator_message_id=0, data_set=dsutils.encode(d, True, True))
+            if in_file_ctx(x[1]):
+                f = _FileLike(m.data_set)
+                f.SOPInstanceUID = '1.2.7.%d' % k
+                m._data_set = f
         else:
             m, pc = svc.received(dm.CGetRSPMessage, case['pc'], message_id_being_responded_to=case['msgid'],
                                  sop_class_uid=sc.PATIENT_ROOT_GET_SOP_CLASS, status=x[1], num_of_remaining_sub_ops=1,
